@@ -21,7 +21,7 @@ const (
 func c18(c *Ctx) {
 	p, r := c.P, c.R
 	r.Technique = "who-may-remove / who-may-replace inventory over SSA field stores; must-pass-through (cut) checks of the guards at every removal and record-replacement site; value-flow check of the failure counter"
-	r.Explanation = "Decides which code paths may remove or replace a table entry and under which guards: (R1) from the bucket-full branch of the add path no removal from entries is reachable, only the bounded front-push into replacements; (R2) every call site of the function that shrinks bucket.entries is guarded as one of {liveness failure: !didRespond and credit/3 <= 0; fruitless queries: counter >= 5 and len(entries) >= 16/4, where the counter is 0 on the success path and stored-count+1 on the failure path and is reset on success; explicit deletion: an otherwise mutation-free function deleting its own argument}; liveness credit is divided by 3 on failure and incremented on success; (R3) the remover appends a replacement iff the replacement list is non-empty, takes it out of that list, and registers it; (R4) a stored record is replaced only under seq(new) > seq(old) or the inbound flag, the inbound flag can be true only for the sender parameter of a talk-request entry point (followed through parameters and operation-record fields), an endpoint change clears the verified flag on every path, the IP change is re-checked against the limits; (R5) replacements are pushed at the front. Not decided: equivalence with a reference model over operation histories."
+	r.Explanation = "Decides which code paths may remove or replace a table entry and under which guards: (R1) from the bucket-full branch of the add path no removal from entries is reachable, only the bounded front-push into replacements; (R2) every call site of the function that shrinks bucket.entries is guarded as one of {liveness failure: !didRespond and credit/3 <= 0; fruitless queries: counter >= 5 and len(entries) >= 16/4, where the counter is 0 on the success path and stored-count+1 on the failure path and is reset on success; explicit deletion: an otherwise mutation-free function deleting its own argument}; liveness credit is divided by 3 on failure and incremented on success, and the flag that tells the two apart is exactly 'the liveness ping returned no error'; (R3) the remover appends a replacement iff the replacement list is non-empty, takes it out of that list, and registers it; (R4) a stored record is replaced only under seq(new) > seq(old) or the inbound flag, the inbound flag can be true only for the sender parameter of a talk-request entry point (followed through parameters and operation-record fields), an endpoint change clears the verified flag on every path, the IP change is re-checked against the limits; (R5) replacements are pushed at the front. Not decided: equivalence with a reference model over operation histories."
 	r.Assumptions = []string{"enode.DB FindFails/UpdateFindFails persist the counter faithfully", "slices.Delete / slices.DeleteFunc remove exactly the selected elements"}
 	m := newTableModel(c)
 	r.Floor("R1.full-bucket", 2)
@@ -309,6 +309,44 @@ func c18(c *Ctx) {
 			}
 		}
 		endpointChangeClears(c, m, w, "R4.record-update", key)
+	}
+
+	// ---------- R2b: what "did respond" means. The flag that decides between credit+1 and
+	// credit/3 (and so, at credit 0, removal) is the outcome of the liveness PING alone: a node
+	// that answered the ping is alive whatever happens to a follow-up request for its record
+	{
+		nW := 0
+		for _, fn := range p.ModuleFuncs() {
+			for _, b := range fn.Blocks {
+				for _, in := range b.Instrs {
+					st, ok := in.(*ssa.Store)
+					if !ok {
+						continue
+					}
+					t, f, _, ok := core.FieldRef(st.Addr)
+					if !ok || t != "revalidationResponse" || f != "didRespond" {
+						continue
+					}
+					nW++
+					okPing := false
+					if bo, isBo := st.Val.(*ssa.BinOp); isBo && bo.Op == token.EQL {
+						for _, pr := range [][2]ssa.Value{{bo.X, bo.Y}, {bo.Y, bo.X}} {
+							if !core.IsNilConst(pr[1]) {
+								continue
+							}
+							// exactly the ping's error: an Extract of a call of the transport's ping
+							if ex, isEx := pr[0].(*ssa.Extract); isEx {
+								if cc, isC := ex.Tuple.(*ssa.Call); isC && cc.Call.IsInvoke() && cc.Call.Method.Name() == "ping" && ex.Index == core.ErrResultIndex(cc.Call.Signature()) {
+									okPing = true
+								}
+							}
+						}
+					}
+					r.Check(okPing, "R2.credit", core.FuncName(fn)+" did-respond-is-the-ping", p.Pos(st.Pos()), "didRespond = (the ping's error == nil)", "didRespond is not exactly 'the liveness ping returned no error' (e.g. it also reflects a later record request): a node that answers pings can lose credit and be removed from its bucket")
+				}
+			}
+		}
+		r.Check(nW >= 1, "R2.credit", "did-respond writers", "-", fmt.Sprintf("%d write(s) of didRespond inspected", nW), "no write of revalidationResponse.didRespond found")
 	}
 
 	// ---------- R5: push-front
